@@ -414,6 +414,32 @@ def main():
     facts["keyringShape"] = ("List Nat", "[" + ", ".join(map(str, marks)) + "]",
                              "keyring.rs get_or_create_db_key: call sequence read(0) → lock(1) → read(0) → generate(2) → store(3)")
     boolean("keyringGuardHeldToReturn", held, "keyring.rs get_or_create_db_key: the MutexGuard is bound to a named variable and not dropped before the function returns")
+    # how the Result of `.lock()` is treated when the mutex is POISONED (a thread panicked holding it):
+    #   propagated as an error (`?` / unwrap / expect)            -> the caller fails closed        (true)
+    #   discarded together with the guard (`.ok()`, `if let Ok`…) -> the caller goes on WITHOUT the lock (false)
+    #   `into_inner()` recovery keeps the guard: safe, but a third behaviour the model does not have -> loud
+    stmt_m = re.search(r"let\s+" + re.escape(gname) + r"\s*(?::[^=;]+)?=([^;]*\.lock\s*\(\s*\)[^;]*);", goc)
+    iflet_m = re.search(r"(?:if|while)\s+let\s+Ok\s*\([^)]*\)\s*=[^{;]*\.lock\s*\(\s*\)", goc)
+    if iflet_m and not stmt_m:
+        fails_closed = False
+    elif not stmt_m:
+        raise Missing("keyring:get_or_create_db_key:lock-result")
+    else:
+        after = stmt_m.group(1)[re.search(r"\.lock\s*\(\s*\)", stmt_m.group(1)).end():]
+        after_flat = re.sub(r"\s+", "", after)
+        if "into_inner" in after_flat or "clear_poison" in goc:
+            raise Missing("keyring:get_or_create_db_key:lock-result:recovers-the-guard-of-a-poisoned-lock "
+                          "(into_inner/clear_poison: safe, but Model.Keyring has no such rule — extend the model)")
+        propagated = bool(re.search(r"\?$", after_flat)) or bool(re.search(r"\.(unwrap|expect)\((?:\"(?:[^\"\\]|\\.)*\")?\)$", after_flat))
+        discarded = bool(re.search(r"\.(ok|unwrap_or_default|unwrap_or|unwrap_or_else|map_or|map_or_else|is_ok|is_err|err)\(", after_flat)) and not propagated
+        if propagated and not re.search(r"\.(ok|unwrap_or_default|unwrap_or|unwrap_or_else)\(", after_flat):
+            fails_closed = True
+        elif discarded:
+            fails_closed = False
+        else:
+            raise Missing("keyring:get_or_create_db_key:lock-result:unrecognised `" + after_flat[:80] + "`")
+    boolean("lockPoisonFailsClosed", fails_closed,
+            "keyring.rs get_or_create_db_key: the Result of KEY_GENERATION_LOCK.lock() is propagated (`?`/unwrap/expect) — a poisoned lock makes the caller fail — rather than discarded together with the guard (`.ok()`, `if let Ok`)")
     gdk = fn_body(kr_src, "get_db_key", "fn:get_db_key")
     boolean("keyringReadTakesNoLock", "KEY_GENERATION_LOCK" not in gdk and ".lock(" not in gdk, "keyring.rs get_db_key takes no lock")
     ddk = fn_body(kr_src, "delete_db_key", "fn:delete_db_key")
